@@ -133,6 +133,7 @@ type KnownFinding struct {
 	Obligation string `json:"obligation"`
 	What       string `json:"what"`
 	Witness    string `json:"witness,omitempty"`
+	Except     string `json:"except,omitempty"` // spec expression over the function's inputs/ghosts: the recorded failing class
 	Fixed      string `json:"fixed,omitempty"`
 }
 
@@ -231,6 +232,14 @@ func runCheck(cmd, prop, tier string, seed int, only, dump string, verbose bool)
 	for _, k := range kfs {
 		if k.Fixed == "" {
 			w.refuted[k.Obligation] = true
+			if k.Except != "" {
+				e, err := ParseSpecExpr(k.Except)
+				if err != nil {
+					fmt.Println("gvc: known_findings.json: bad except expression:", err)
+					return 2
+				}
+				w.kfExcept[k.Obligation] = e
+			}
 		}
 	}
 	tLoad := time.Since(t0)
@@ -292,7 +301,7 @@ func runCheck(cmd, prop, tier string, seed int, only, dump string, verbose bool)
 			var keep []*job
 			for _, j := range jobs {
 				k := j.o.Func + "#" + j.o.Clause
-				if claims[k] || kf[k] || j.o.Clause == "$cover" {
+				if claims[k] || kf[k] || kf[strings.TrimSuffix(k, ".outside")] || j.o.Clause == "$cover" {
 					j.idx = len(keep)
 					keep = append(keep, j)
 				} else {
